@@ -105,6 +105,7 @@ def gen_case(rng, kind=None, nd=None, N=None):
     c["xdtype"] = rng.choice(INT_DTYPES + ("to_array", "to_array"))
     c["shape_mode"] = "explicit" if (N == 0 or rng.random() < 0.7) else "inferred"
     c["N_arg"] = N if (kind == "count" and (nd == 0 or rng.random() < 0.2)) else None
+    c["form_seed"] = rng.getrandbits(30) if rng.random() < 0.6 else None      # None: the ordinary forms throughout
     return c
 
 
@@ -206,6 +207,22 @@ def decimal_case(rng, kind=None, nd=None, absent=False):
     return c
 
 
+def int_weights_case(rng, kind=None):
+    """Integer weights 0..250 whose sums cross 128 / 256 (pair form or an all-valid bare array), so that the narrow
+    integer dtypes the form layer picks for them (uint8, int16 ...) are exercised where a narrow accumulator would wrap."""
+    c = gen_case(rng, kind=kind or rng.choice(["mean", "mean", "count", "valid_count", "sum"]), nd=rng.choice([1, 1, 2, 2]),
+                 N=rng.choice([3, 4, 5, 6, 8]))
+    N = c["N"]
+    c["wkind"] = rng.choice(["pair", "pair", "arr"])
+    c["w"] = [rng.choice(INT_W_POOL) for _ in range(N)]
+    c["wvalid"] = [True] * N if c["wkind"] == "arr" else [rng.random() >= rng.choice([0.0, 0.2]) for _ in range(N)]
+    c["whidden"] = rng.choice(["zero", "same"])
+    if c["form_seed"] is None:
+        c["form_seed"] = rng.getrandbits(30)
+    c["int_weights"] = True
+    return c
+
+
 def scale_case(rng, kind=None, decimal=False):
     """'Scale' stream: N in 30..120 rows, 2-3 dimensions from cubelib.gen_lopsided (one dominant category of 60-90 % of
     the rows, a filler, rare categories of 1-3 rows whose last row often lies in the next dimension's dominant category;
@@ -279,7 +296,50 @@ def hidden_value(tag, true_value, dtype):
     return {"nan": NaN, "inf": float("inf"), "-inf": float("-inf"), "big": 1.5e300, "zero": 0.0}.get(tag, float(true_value))
 
 
+# ---- the FORM of the arguments (harness/forms.py): dtype / memory layout / container type vary, content never ----
+# Established on the unchanged tree (notes/cube-aggs.md, FORM FINDINGS) and therefore NOT generated:
+#   * facts in unsigned / narrow integer dtypes that cannot hold the sentinel or the sums (the property says float64 / int64;
+#     narrow SIGNED ints are generated only unweighted and when N * max|value| fits),
+#   * a weights TUPLE of numbers (a tuple is the (values, validity) pair by definition), interacting_shape as a list
+#     (the constructors concatenate tuples), unsigned NumPy scalars as interacting_shape entries (xcube: TypeError),
+#   * a scalar weight as a NARROW NumPy integer scalar (ccube.count wraps modulo 2^bits: candidate finding),
+#   * an iindex whose `common` is a NumPy integer scalar (iindex.to_array -> numpy.object AttributeError when it is the first
+#     distinct value: candidate finding in the iindex vertical).
+FORM_TAGS = []          # tags of the forms used since the last drain (Suite.call moves them into the distribution)
+
+
+def _frng(c, salt):
+    import random
+    fs = c.get("form_seed")
+    return None if fs is None else random.Random(fs * 31 + salt)
+
+
+def _tag(t):
+    FORM_TAGS.append(t)
+
+
+def _exact_f32(a):
+    with numpy.errstate(all="ignore"):
+        b = numpy.asarray(a, dtype=float).astype(numpy.float32)
+    return b if numpy.array_equal(b.astype(float), numpy.asarray(a, dtype=float), equal_nan=True) else None
+
+
+def _validity_form(frng, valid, what):
+    from . import forms
+    r = frng.random()
+    if r < 0.15:
+        _tag(what + ":uint8")
+        return valid.astype(numpy.uint8)
+    if r < 0.25:
+        _tag(what + ":list")
+        return valid.tolist()
+    v, t = forms.layout(frng, valid, p=0.4)
+    _tag(what + ":bool/" + t)
+    return v
+
+
 def build_fact(c):
+    from . import forms
     if c["fact"] is None:
         return None
     dt = numpy.int64 if c["fdtype"] == "i8" else numpy.float64
@@ -293,33 +353,117 @@ def build_fact(c):
     if c["fform"] == "nan":
         arr = arr.copy()
         arr[~valid] = NaN
+    frng = _frng(c, 1)
+    if frng is None or c["N"] == 0:
+        return arr if c["fform"] == "nan" else (arr, valid)
+    small = c["N"] <= 12 and not c.get("spread")
+    tag = str(arr.dtype)
+    if c["fdtype"] == "i8" and c["fform"] == "pair" and c["wkind"] == "none" and frng.random() < 0.4:
+        top = int(numpy.abs(arr).max()) * max(1, c["N"])
+        cands = [d for d in forms.int_dtypes_holding([top, -top]) if d.startswith("int")]
+        if cands:
+            tag = frng.choice(cands)
+            arr = arr.astype(tag)
+    elif c["fdtype"] == "f8" and small and frng.random() < 0.25:
+        f32 = _exact_f32(arr)
+        if f32 is not None:
+            arr, tag = f32, "float32"
+    r = frng.random()
+    if r < 0.08 and c["fform"] == "pair":
+        arr, lt = arr.tolist(), "nested-list"
+    else:
+        arr, lt = forms.layout(frng, arr, p=0.55)
+    _tag("fact:%s/%s%s" % (tag, lt, "" if K is None else "/(N,%d)" % K))
+    if c["fform"] == "nan":
         return arr
-    return (arr, valid)
+    return (arr, _validity_form(frng, valid, "fact-validity"))
+
+
+INT_W_POOL = [Fr(x) for x in (0, 1, 2, 6, 56, 100, 128, 128, 200, 250, 3)]
 
 
 def build_weights(c):
+    from . import forms
     wk = c["wkind"]
     if wk == "none":
         return None
+    frng = _frng(c, 2)
+    integral = (Fr(c["w"]).denominator == 1) if wk.startswith("scalar") else all(Fr(x).denominator == 1 for x in c["w"])
     if wk == "scalar":
-        return float(c["w"]) if c["wvalid"] else NaN
+        if not c["wvalid"]:
+            return NaN
+        x = float(c["w"])
+        if frng is None:
+            return x
+        kinds = ["python-float", "numpy.float64", "0-d array"] + (["numpy.float32"] if float(numpy.float32(x)) == x else []) + (["python-int", "numpy.int64"] if integral else [])
+        k = frng.choice(kinds)
+        _tag("weight-scalar:" + k)
+        return {"python-float": x, "numpy.float64": numpy.float64(x), "0-d array": numpy.array(x), "numpy.float32": numpy.float32(x),
+                "python-int": int(x), "numpy.int64": numpy.int64(int(x))}[k]
     if wk == "scalar_pair":
-        return (float(c["w"]) if c["wvalid"] else hidden_value(c["whidden"], c["w"], "f8"), bool(c["wvalid"]))
+        x = float(c["w"]) if c["wvalid"] else hidden_value(c["whidden"], c["w"], "f8")
+        if frng is None or frng.random() < 0.5:
+            return (x, bool(c["wvalid"]))
+        if integral and c["wvalid"] and frng.random() < 0.5:
+            _tag("weight-scalar-pair:python-int")
+            return (int(x), True)
+        _tag("weight-scalar-pair:numpy")
+        return (numpy.float64(x), numpy.bool_(c["wvalid"]))
     vals = numpy.array([float(v) if ok else hidden_value(c["whidden"], v, "f8") for v, ok in zip(c["w"], c["wvalid"])], dtype=float)
     valid = numpy.array(c["wvalid"], dtype=bool)
     if wk == "arr":
         vals[~valid] = NaN
+    if frng is None or c["N"] == 0:
+        return vals if wk == "arr" else (vals, valid)
+    small = c["N"] <= 12 and not c.get("spread")
+    tag = "float64"
+    can_int = integral and ((wk == "pair" and (c["whidden"] in ("zero", "same") or all(c["wvalid"]))) or (wk == "arr" and all(c["wvalid"])))
+    if can_int and frng.random() < 0.6:
+        flat = [int(Fr(x)) for x in c["w"]]
+        cands = forms.int_dtypes_holding(flat)
+        tag = cands[0] if frng.random() < 0.5 else frng.choice(cands)      # the narrowest in half of the cases
+        if tag == "int8" and "uint8" in cands and frng.random() < 0.5:
+            tag = "uint8"
+        vals = numpy.array(flat, dtype=tag)
+    elif small and frng.random() < 0.2:
+        f32 = _exact_f32(vals)
+        if f32 is not None:
+            vals, tag = f32, "float32"
+    if frng.random() < 0.12:
+        vals, lt = vals.tolist(), "list"
+    else:
+        vals, lt = forms.layout(frng, vals, p=0.5)
+    _tag("weights:%s/%s" % (tag, lt))
+    if wk == "arr":
         return vals
-    return (vals, valid)
+    return (vals, _validity_form(frng, valid, "weights-validity"))
 
 
-def build_index(catii, arr, common, N):
-    """A 1-D iindex storing every value but `common` (the representation ccube walks)."""
-    entries = {}
+def build_index(catii, arr, common, N, form_seed=None, k=0):
+    """A 1-D iindex storing every value but `common` (the representation ccube walks).  With a form seed: built by the
+    constructor from row-id arrays that are column views of a larger buffer / with NumPy scalars for common and N, or by
+    `from_array` from the dense array in a narrow integer dtype and another memory layout."""
+    from . import forms
     a = numpy.asarray(arr, dtype=numpy.int64)
+    frng = None
+    if form_seed is not None:
+        import random
+        frng = random.Random(form_seed * 31 + 100 + k)
+    how = "ctor" if frng is None else frng.choice(["ctor", "ctor-views", "from_array", "from_array"])
+    if how == "from_array" and N > 0:
+        an, t = forms.int_array(frng, a, p=0.8)
+        _tag("iindex:from_array(%s)" % t)
+        return catii.iindex.from_array(an, common=int(common))
+    entries = {}
     for v in sorted(set(a.tolist())):
         if v != common:
-            entries[(int(v),)] = numpy.nonzero(a == v)[0].astype(numpy.uint32)
+            rows = numpy.nonzero(a == v)[0].astype(numpy.uint32)
+            if how == "ctor-views":
+                rows, _t = forms.rowids(frng, rows, p=0.7)
+            entries[(int(v),)] = rows
+    if how == "ctor-views":
+        _tag("iindex:ctor(rowid column views, NumPy-scalar N)")
+        return catii.iindex(entries, int(common), (forms.scalar_int(frng, int(N), p=0.7)[0],))
     return catii.iindex(entries, common, (N,))
 
 
@@ -329,13 +473,35 @@ def index_entries(idx):
 
 
 def build_xarrays(c, dims):
+    from . import forms
     out = []
+    frng = _frng(c, 3)
     for a, d in zip(c["arrs"], dims):
         if c["xdtype"] == "to_array":
-            out.append(d.to_array())
+            x = d.to_array()
         else:
-            out.append(numpy.array(a, dtype=c["xdtype"]))
+            x = numpy.array(a, dtype=c["xdtype"])
+        if frng is not None:
+            x, lt = forms.layout(frng, x, p=0.4)
+            _tag("xcube-dim:%s/%s" % (x.dtype, lt))
+        out.append(x)
     return out
+
+
+def form_exts(c, exts):
+    """interacting_shape entries as (signed) NumPy integer scalars"""
+    from . import forms
+    frng = _frng(c, 4)
+    if exts is None or frng is None or frng.random() < 0.6:
+        return exts
+    out = []
+    for e in exts:
+        v, t = forms.scalar_int(frng, int(e), p=0.8)
+        if t.startswith("numpy.uint"):
+            v, t = numpy.int64(int(e)), "numpy.int64"
+        out.append(v)
+    _tag("interacting_shape:numpy-scalars")
+    return tuple(out)
 
 
 def call_args(c, fmt):
@@ -343,6 +509,11 @@ def call_args(c, fmt):
     kw = {"weights": build_weights(c), "ignore_missing": c["ign"], "return_missing_as": fmt_arg(fmt)}
     if c["kind"] == "count" and c.get("N_arg") is not None:
         kw["N"] = c["N_arg"]
+        frng = _frng(c, 5)
+        if frng is not None and frng.random() < 0.5:
+            from . import forms
+            kw["N"], t = forms.scalar_int(frng, int(c["N_arg"]), p=1.0)
+            _tag("N:" + t)
     return args, kw
 
 
@@ -416,9 +587,10 @@ def run_cube(catii, c, which, fmt, dims=None, exts=None):
     `dims`: the iindex objects to use (default: built from the case); `exts`: the explicit shape
     (default: the case's, or None when shape_mode is 'inferred')."""
     if dims is None:
-        dims = [build_index(catii, a, cm, c["N"]) for a, cm in zip(c["arrs"], c["commons"])]
+        dims = build_dims(catii, c)
     if exts is None and c["shape_mode"] == "explicit":
         exts = tuple(c["exts"])
+    exts = form_exts(c, exts)
     cols = c["K"] or 1
     args, kw = call_args(c, fmt)
     try:
@@ -820,7 +992,7 @@ def zero_dim_case(rng, kind):
 
 
 def build_dims(catii, c):
-    return [build_index(catii, a, cm, c["N"]) for a, cm in zip(c["arrs"], c["commons"])]
+    return [build_index(catii, a, cm, c["N"], c.get("form_seed"), k) for k, (a, cm) in enumerate(zip(c["arrs"], c["commons"]))]
 
 
 def cells_agree(c, a, b, exact=True):
@@ -866,6 +1038,9 @@ class Suite:
         rc = run_cube(catii, c, "c", fmt, dims=dims, exts=exts) if "c" in which else None
         rx = run_cube(catii, c, "x", fmt, dims=dims, exts=exts) if "x" in which else None
         self.calls += (rc is not None) + (rx is not None)
+        for t in set(FORM_TAGS):
+            self.count("form:" + t)
+        del FORM_TAGS[:]
         cs, xs = inferred_shapes(c)
         explicit = exts is not None or c["shape_mode"] == "explicit"
         for w, res, inf in (("c", rc, cs), ("x", rx, xs)):
